@@ -3,7 +3,7 @@
 import os
 
 # which repairs the checked tree contains: "pinned" (before a779db8), "fixed_F2" (a779db8 = fixes/C08-F2.diff applied),
-# "repaired" (a779db8 and 72ba5d4 = fixes/C08-F3.diff; the tree as it is now).
+# "before_F5" (a779db8, 72ba5d4, 41fd1db), "repaired" (additionally 6d0a3af; the tree as it is now).
 FX = os.environ.get("VERIF_C08_FX", "repaired")
 
 P = {
@@ -16,27 +16,27 @@ P = {
                  "C08_malformed_rejected", "C08_reenc_checked_by_evaluator", "C08_off_rejects_encoded_slash",
                  "C08_off_answers_precondition", "C08_off_rejects_encoded_slash_parametric", "C08_F4_off_refuted",
                  "C08_F2_off_pinned_refuted", "C08_off_captures_decoded", "C08_capture_decoding",
-                 "C08_nodecode_keeps", "C08_on_decodes", "C08_nodecode_on_nonvacuous",
-                 "C08_F5_nodecode_refuted", "C08_F2_nodecode_pinned_refuted", "C08_reencoding_invariant_envoy",
-                 "C08_off_rejects_encoded_slash_envoy", "C08_F4_envoy_upstream_refuted"],
+                 "C08_capture_decoding_parametric", "C08_nodecode_keeps", "C08_on_decodes",
+                 "C08_nodecode_on_nonvacuous", "C08_F5_nodecode_pinned_refuted", "C08_F2_nodecode_pinned_refuted",
+                 "C08_reencoding_invariant_envoy", "C08_off_rejects_encoded_slash_envoy", "C08_F4_envoy_upstream_refuted"],
     "streams": [{
         "name": "requests", "pkg": "./internal/rules", "test": "TestVerifC08",
         "overlay": {"internal/rules/zz_verif_c08_test.go": "c08/c08_test.go"},
         "eval_module": "Run.Eval_C08", "check_term": "check " + FX,
         "n_quick": 1000, "n_thorough": 30000, "shard": 150,
-        "findings": {1: "C08-F1", 4: "C08-F4", 5: "C08-F5"},
+        "findings": {1: "C08-F1", 4: "C08-F4"},
     }, {
         "name": "envoy", "pkg": "./internal/rules", "test": "TestVerifC08Envoy",
         "overlay": {"internal/rules/zz_verif_c08_test.go": "c08/c08_test.go"},
         "eval_module": "Run.Eval_C08", "check_term": "check_envoy " + FX,
         "n_quick": 500, "n_thorough": 15000, "shard": 150,
-        "findings": {1: "C08-F1", 4: "C08-F4", 5: "C08-F5"},
+        "findings": {1: "C08-F1", 4: "C08-F4"},
     }, {
         "name": "units", "pkg": "./internal/rules", "test": "TestVerifC08Units",
         "overlay": {"internal/rules/zz_verif_c08_test.go": "c08/c08_test.go"},
         "eval_module": "Run.Eval_C08", "check_term": "ucheck " + FX,
         "n_quick": 1500, "n_thorough": 30000,
-        "findings": {5: "C08-F5"},
+        "findings": {},
     }, {
         "name": "gourl", "pkg": "./internal/rules/config", "test": "TestVerifGoUrl",
         "overlay": {"internal/rules/config/zz_verif_gourl_test.go": "gourl/gourl_test.go"},
@@ -69,14 +69,14 @@ P = {
                   "rule sets, default-rule settings, request paths and ALL equivalent re-encodings, the answer kind, the rule "
                   "and the captured values are unchanged outside the guard of finding C08-F1; a path with %2F/%2f is "
                   "never accepted by an `off` rule or the default rule outside C08-F4; captured values are the decoded pieces of the path "
-                  "(`no_decode`: all but the encoded slash; place-holder trick proved correct) and the upstream raw path is kept / dropped, outside C08-F4/F5.  Each guard has a `_refuted` witness.  The model is tied "
+                  "(`no_decode`: all but the encoded slash; the piece-by-piece decoding is proved correct without a guard, the earlier place-holder trick outside C08-F2/F5) and the upstream raw path is kept / dropped, outside C08-F4.  Each guard has a `_refuted` witness.  The model is tied "
                   "to the code by three differential streams per run (~1000 request pairs through the real net/http server/"
                   "repository/executor, ~500 through the real Envoy request context, ~1500 unescape units, ~2500 net/url cases; "
                   "30000/15000/30000/40000 in the thorough tier).",
     "level_note": "Trusted: Coq kernel/vm_compute; the correspondence harness (generator, stub authenticator, Gallina rendering); "
                   "the radix tree abstracted to a segment-wise search (C02/C03 own the tree), generator restricted to inputs "
-                  "exact path_params only.  Open findings C08-F1/F4/F5 are guarded, observed on every run from the driver's corpus "
-                  "and documented by `_refuted` theorems; C08-F2 and C08-F3 were repaired by fix: commits a779db8 and 72ba5d4 (theorems are stated "
+                  "exact path_params only.  Open findings C08-F1/F4 are guarded, observed on every run from the driver's corpus "
+                  "and documented by `_refuted` theorems; C08-F2, C08-F3 and C08-F5 were repaired by fix: commits a779db8, 72ba5d4 and 6d0a3af (theorems are stated "
                   "for the repaired tree, the earlier behaviour is kept as `_pinned_refuted`); the model is parametric in the repairs.",
     "assumptions": ["requests reach heimdall through net/http (HTTP/1.1 origin-form target) or through the Envoy ext_authz request "
                     "context (path attribute without query); X-Forwarded-Uri delivery is not driven",
